@@ -408,7 +408,7 @@ pub fn drive_parse(a: &Args, thorough: bool) {
         frontier = next;
     }
     // (b) structured: spelling class x run-built block hashes x terminators
-    let reps = if thorough { 40000 } else { 5000 };
+    let reps = if thorough { 100000 } else { 5000 };
     for i in 0..reps {
         if i % 100 == 0 {
             sh.next_unit();
@@ -428,7 +428,7 @@ pub fn drive_parse(a: &Args, thorough: bool) {
         n += 1;
     }
     // (c) byte-level mutations of accepted texts (incl. generator output)
-    let reps = if thorough { 100000 } else { 8000 };
+    let reps = if thorough { 200000 } else { 8000 };
     for i in 0..reps {
         if i % 100 == 0 {
             sh.next_unit();
@@ -499,7 +499,7 @@ pub fn drive_fmt(a: &Args, thorough: bool) {
             }
         }
     }
-    for _ in 0..(if thorough { 30000 } else { 1000 }) {
+    for _ in 0..(if thorough { 100000 } else { 1000 }) {
         sh.next_unit();
         let al = alphabet(&mut rng);
         let la = pick_bh_len(&mut rng, 64);
@@ -690,7 +690,7 @@ pub fn drive_norm(a: &Args, thorough: bool) {
             }
         }
     }
-    for _ in 0..(if thorough { 60000 } else { 4000 }) {
+    for _ in 0..(if thorough { 200000 } else { 4000 }) {
         sh.next_unit();
         // geometric run lengths
         let mk = |rng: &mut Rng, cap: usize| -> Vec<u8> {
@@ -839,7 +839,7 @@ pub fn drive_dual(a: &Args, thorough: bool) {
         }
         n += 1;
     }
-    for _ in 0..(if thorough { 30000 } else { 1500 }) {
+    for _ in 0..(if thorough { 60000 } else { 1500 }) {
         sh.next_unit();
         let al = alphabet(&mut rng);
         let la = pick_bh_len(&mut rng, 64);
@@ -945,7 +945,7 @@ pub fn drive_ord(a: &Args, thorough: bool) {
         sh.emit(&format!("{{\"ev\":\"sort\",\"T\":\"RL\",\"in\":[{}],\"out\":[{}]}}", inp.join(","), out.join(",")));
     }
     // random full-length pairs, incl. pairs that differ only by trailing symbol-0 characters
-    for _ in 0..(if thorough { 60000 } else { 6000 }) {
+    for _ in 0..(if thorough { 300000 } else { 6000 }) {
         sh.next_unit();
         let al = alphabet(&mut rng);
         let la = pick_bh_len(&mut rng, 64);
@@ -978,7 +978,7 @@ pub fn drive_ord(a: &Args, thorough: bool) {
         n += 1;
     }
     // dual families
-    for f in 0..(if thorough { 400 } else { 60 }) {
+    for f in 0..(if thorough { 3000 } else { 60 }) {
         sh.next_unit();
         let al = alphabet(&mut rng);
         let la = rng.range(3, 24);
